@@ -138,7 +138,7 @@ func (in *Interp) yield(vals []Value) []Value {
 	case msgKill:
 		panic(coKill{})
 	case msgClose:
-		panic(&LuaError{Val: closeSentinel})
+		panic(&LuaError{Val: closeSentinel, Closing: true})
 	}
 	return msg.vals
 }
